@@ -182,9 +182,7 @@ def gen_wide(env, tier, prop):
             wide = np.array([rnd.choice([0, 1, ext // 2 - 1, ext // 2, ext // 2 + 1, ext - 2, ext - 1]) % ext for _ in range(n)], dtype=np.int64)
             fact = None if func == "count" else gen.fact(n, K=rnd.choice([1, 1, 2]))
             ignore = rnd.random() < 0.5
-            fmt = rnd.choice([("nan",), ("tuple", 0), ("plain", 0)])
-            if func == "valid_count" and fmt[0] == "plain":
-                ignore = True
+            fmt = rnd.choice([("nan",), ("tuple", 0)])      # (the sparse cell report cannot tell a plain replacement from a value)
             case = cb.Case([wide], (ext,), fact, gen.weights(n), ignore, fmt, func)
             env.run_xcube(prop, case, dtype=rnd.choice([np.int64, np.int64, np.uint16]))
             env.run_ccube(prop, case)
